@@ -15,130 +15,20 @@ use vlib::{ck, Pat, Z};
 const QUICK: u32 = 600;
 const FACTOR: u32 = 20;
 
-fn heavy_pairs(sh: Shape) -> BoxedStrategy<(Pat, Pat)> {
-    prop_oneof![
-        4 => gen::pattern_pair(sh),
-        2 => (gen::boundary(sh), gen::boundary(sh)),
-        2 => (gen::pattern(sh), gen::boundary(sh)),
-        1 => gen::pattern(sh).prop_map(move |a| (a, Pat(vec![0u8; sh.bytes]))),
-    ]
-    .boxed()
-}
-
-fn shift_amounts(sh: Shape) -> BoxedStrategy<i128> {
-    let w = sh.bits() as i128;
-    prop_oneof![
-        3 => prop_oneof![Just(0i128), Just(1), Just(w - 1), Just(w), Just(w + 1)],
-        1 => prop_oneof![Just(-1i128), Just(i8::MIN as i128), Just(i64::MIN as i128), Just(u32::MAX as i128), Just(u32::MAX as i128 + 1), Just(i128::MAX), Just(255i128), Just(65535)],
-        6 => 0i128..w,
-        1 => -300i128..300,
-    ]
-    .boxed()
-}
-
-use checks::forms::{Forms, NegForms, FORM_NAMES};
+use checks::forms::{Forms, NegForms};
+use checks::siblings::{fold_seqs, heavy_pairs, shift_amounts, Group};
 
 fn binop_eval<T: Forms>(c: &(Pat, Pat), obs: &mut Obs) -> Result<(), String> {
-    let (a, b): (T, T) = (ld(&c.0), ld(&c.1));
-    obs.nt();
-    let ops: [(&str, fn(T, T) -> T, fn(T, T, u8) -> T); 8] = [
-        ("+", |a, b| a.c_add(b), T::f_add),
-        ("-", |a, b| a.c_sub(b), T::f_sub),
-        ("*", |a, b| a.c_mul(b), T::f_mul),
-        ("/", |a, b| a.c_div(b), T::f_div),
-        ("%", |a, b| a.c_rem(b), T::f_rem),
-        ("&", |a, b| a.c_bitand(b), T::f_bitand),
-        ("|", |a, b| a.c_bitor(b), T::f_bitor),
-        ("^", |a, b| a.c_bitxor(b), T::f_bitxor),
-    ];
-    for (name, twin, forms) in ops {
-        let reference = oc(|| twin(a, b));
-        obs.label_if(reference.is_panic(), "outcome is a panic (all forms must panic)");
-        for form in 0..6u8 {
-            ck!(format!("`{}` with op = {} vs const twin", FORM_NAMES[form as usize], name), oc(|| forms(a, b, form)), reference.clone());
-        }
-    }
-    ck!("!a", oc(|| T::f_not(a, 0)), oc(|| a.c_not()));
-    ck!("!&a", oc(|| T::f_not(a, 1)), oc(|| a.c_not()));
-    // Ord / PartialOrd / Eq trait methods against the const inherent twins
-    ck!("PartialEq::eq", PartialEq::eq(&a, &b), a.c_eq(&b));
-    ck!("PartialEq::ne", PartialEq::ne(&a, &b), a.c_ne(&b));
-    ck!("Ord::cmp", Ord::cmp(&a, &b), a.c_cmp(&b));
-    ck!("PartialOrd::partial_cmp", PartialOrd::partial_cmp(&a, &b), Some(a.c_cmp(&b)));
-    ck!("PartialOrd::lt/le/gt/ge", (PartialOrd::lt(&a, &b), PartialOrd::le(&a, &b), PartialOrd::gt(&a, &b), PartialOrd::ge(&a, &b)), (a.c_lt(&b), a.c_le(&b), a.c_gt(&b), a.c_ge(&b)));
-    ck!("Ord::max", st(&Ord::max(a, b)), st(&a.c_max(b)));
-    ck!("Ord::min", st(&Ord::min(a, b)), st(&a.c_min(b)));
-    let (lo, hi) = if a.c_cmp(&b) == Ordering::Greater { (b, a) } else { (a, b) };
-    ck!("Ord::clamp", st(&Ord::clamp(a ^ b, lo, hi)), st(&(a ^ b).c_clamp(lo, hi)));
-    Ok(())
+    checks::siblings::binop_forms::<T>(Group::All, c, obs)
 }
-
 fn neg_eval<I: SInt + NegForms>(c: &Pat, obs: &mut Obs) -> Result<(), String> {
-    let a: I = ld(c);
-    let reference = oc(|| a.c_neg());
-    obs.nt();
-    obs.label_if(reference.is_panic(), "outcome is a panic (all forms must panic)");
-    ck!("-a", oc(|| I::f_neg(a, 0)), reference.clone());
-    ck!("-&a", oc(|| I::f_neg(a, 1)), reference.clone());
-    Ok(())
+    checks::siblings::neg_forms::<I>(c, obs)
 }
-
-/// shifts by every primitive amount type: all forms equal the by-value form, which equals the
-/// inherent shl/shr(s as u32) whenever 0 <= s <= u32::MAX; bnum-typed amounts below BITS
 fn shift_eval<T: Forms>(c: &(Pat, i128), obs: &mut Obs) -> Result<(), String> {
-    let a: T = ld(&c.0);
-    let s: i128 = c.1;
-    obs.nt();
-    macro_rules! one {
-        ($($f:ident : $t:ty),*) => {$(
-            if let Ok(amt) = <$t>::try_from(s) {
-                for left in [true, false] {
-                    let by_value = oc(|| T::$f(a, left, amt, 0));
-                    obs.label_if(by_value.is_panic(), "shift outcome is a panic");
-                    for form in 1..6u8 {
-                        ck!(format!("shift {} by {}: `{}` vs by-value form", if left { "left" } else { "right" }, stringify!($t), FORM_NAMES[form as usize]), oc(|| T::$f(a, left, amt, form)), by_value.clone());
-                    }
-                    if let Ok(u) = u32::try_from(s) {
-                        ck!(format!("shift {} by {} == inherent(s as u32)", if left { "left" } else { "right" }, stringify!($t)), by_value.clone(), oc(|| if left { a.c_shl(u) } else { a.c_shr(u) }));
-                    }
-                }
-            }
-        )*};
-    }
-    one!(f_shift_u8: u8, f_shift_u16: u16, f_shift_u32: u32, f_shift_u64: u64, f_shift_u128: u128, f_shift_usize: usize,
-         f_shift_i8: i8, f_shift_i16: i16, f_shift_i32: i32, f_shift_i64: i64, f_shift_i128: i128, f_shift_isize: isize);
-    if s >= 0 && s < T::W as i128 {
-        let u = s as u32;
-        for left in [true, false] {
-            let reference = oc(|| if left { a.c_shl(u) } else { a.c_shr(u) });
-            for which in 0..6u8 {
-                for form in 0..6u8 {
-                    // None: the amount does not fit the (1- or 3-digit) amount type
-                    let got = outcome(|| T::f_shift_bnum(a, left, which, u, form).map(|v| st(&v)));
-                    if let Outcome::Returned(None) = got {
-                        continue;
-                    }
-                    obs.label("bnum-typed shift amount");
-                    ck!(format!("shift {} by bnum-typed amount (kind {}) `{}`", if left { "left" } else { "right" }, which, FORM_NAMES[form as usize]), got, reference.clone().map(Some));
-                }
-            }
-        }
-    }
-    Ok(())
+    checks::siblings::shift_forms::<T>(c, obs)
 }
-
 fn folds_eval<T: Forms>(c: &Vec<Pat>, obs: &mut Obs) -> Result<(), String> {
-    let xs: Vec<T> = c.iter().map(|p| ld::<T>(p)).collect();
-    let fold_sum = oc(|| xs.iter().fold(T::k_zero(), |acc, &x| acc + x));
-    let fold_prod = oc(|| xs.iter().fold(T::k_one(), |acc, &x| acc * x));
-    obs.nt_if(xs.len() >= 2);
-    obs.label_if(fold_sum.is_panic() || fold_prod.is_panic(), "fold overflows (panic in dbg)");
-    obs.label_if(xs.is_empty(), "empty sequence");
-    ck!("Sum by value", oc(|| T::f_sum(&xs, false)), fold_sum.clone());
-    ck!("Sum by reference", oc(|| T::f_sum(&xs, true)), fold_sum.clone());
-    ck!("Product by value", oc(|| T::f_product(&xs, false)), fold_prod.clone());
-    ck!("Product by reference", oc(|| T::f_product(&xs, true)), fold_prod.clone());
-    Ok(())
+    checks::siblings::fold_forms::<T>(Group::All, c, obs)
 }
 
 fn misc_eval<T: Int>(c: &Pat, obs: &mut Obs) -> Result<(), String> {
@@ -245,9 +135,7 @@ where
         ctx.run("i", ctx.budget(q(QUICK), FACTOR), (gen::pattern(sh), shift_amounts(sh)), shift_eval::<I>);
     }));
     jobs.push(Job::new(job_name::<U>("folds"), move |ctx| {
-        // sequences of 0..=8 elements; small elements so that sums/products sometimes fit
-        let elem = prop_oneof![2 => gen::pattern(sh), 3 => (0u64..20).prop_map(move |x| Pat(Z::from_u64(x).to_le_wrapped(sh.bytes))), 1 => (-5i64..0).prop_map(move |x| Pat(Z::from_i64(x).to_le_wrapped(sh.bytes)))];
-        let seqs = || proptest::collection::vec(elem.clone(), 0..=8);
+        let seqs = || fold_seqs(sh);
         ctx.run("u", ctx.budget(q(QUICK / 2), FACTOR), seqs(), folds_eval::<U>);
         ctx.run("i", ctx.budget(q(QUICK / 2), FACTOR), seqs(), folds_eval::<I>);
     }));
